@@ -95,7 +95,10 @@ type Sched struct {
 	// (reads of never-written locations commute with everything).
 	Relevant func(loc string) bool
 	active   bool
-	sync     map[string]*syncObj
+	// MaxPreempt, when > 0, caps the preemptions of this execution below the explorer's bound.
+	MaxPreempt int
+	preempts   int
+	sync       map[string]*syncObj
 	SyncOps  int
 	Deadlock string
 }
@@ -272,7 +275,12 @@ func (s *Sched) point(key, loc string, write, record bool) {
 // Run executes bodies as cooperative threads under c's schedule choices and returns when
 // all have finished. A panic in a body is returned (first one).
 func Run(c *mc.Ctx, relevant func(string) bool, first int, bodies ...func()) (s *Sched, pan interface{}) {
-	s = &Sched{c: c, yield: make(chan int), Relevant: relevant, sync: map[string]*syncObj{}}
+	return RunLimited(c, relevant, first, 0, bodies...)
+}
+
+// RunLimited is Run with at most maxPreempt preemptions (0 = the explorer's bound only).
+func RunLimited(c *mc.Ctx, relevant func(string) bool, first, maxPreempt int, bodies ...func()) (s *Sched, pan interface{}) {
+	s = &Sched{c: c, yield: make(chan int), Relevant: relevant, sync: map[string]*syncObj{}, MaxPreempt: maxPreempt}
 	for i := range bodies {
 		vc := make([]int, len(bodies))
 		vc[i] = 1
@@ -362,7 +370,14 @@ func (s *Sched) pick(running int) int {
 	if len(enabled) == 1 {
 		k = 0
 	} else if running >= 0 {
-		k = s.c.Dev("preempt", len(enabled))
+		if s.MaxPreempt > 0 && s.preempts >= s.MaxPreempt {
+			k = 0
+		} else {
+			k = s.c.Dev("preempt", len(enabled))
+			if k != 0 {
+				s.preempts++
+			}
+		}
 	} else {
 		k = s.c.Pick("next-thread", len(enabled))
 	}
